@@ -495,6 +495,9 @@ def huge_limits_shard(args):
                 key = ("died:" + e.kind, re.sub(r"[0-9]+", "N", e.detail[-120:]))
             finally:
                 srv.close()
+            if key[0] == "died:timeout":
+                agg.inconc("timeout")       # (a slow machine; an abort or an allocation failure is the observation, not this)
+                continue
             if ref is None:
                 ref = key
             elif key != ref:
@@ -574,8 +577,20 @@ def native_cycles_shard(args):
                     agg.violation({"kind": "native_stack_exhausted_by_evaluation", "shape": "native:" + builtin},
                                   {"src": src, "s": s_lim, "crash": e.detail[-300:]}, {"script": lines})
                 else:
-                    agg.violation({"kind": "endless_native_traversal", "builtin": builtin},
-                                  {"src": src, "s": s_lim, "observed": e.kind}, {"script": lines})
+                    # confirm on a second dedicated child with six times the budget: a machine under load may take longer
+                    # than 10 s to start a process, a program that never stops exhausts any budget
+                    srv.close()
+                    srv = Server(mem_gib=1.0)
+                    try:
+                        srv.request(lines, timeout=60)
+                        agg.inconc("slow_first_attempt")
+                    except Crashed as e2:
+                        if "overflowed its stack" in e2.detail:
+                            agg.violation({"kind": "native_stack_exhausted_by_evaluation", "shape": "native:" + builtin},
+                                          {"src": src, "s": s_lim, "crash": e2.detail[-300:]}, {"script": lines})
+                        else:
+                            agg.violation({"kind": "endless_native_traversal", "builtin": builtin},
+                                          {"src": src, "s": s_lim, "observed": [e.kind, e2.kind]}, {"script": lines})
             finally:
                 srv.close()
     return agg
